@@ -39,16 +39,25 @@ PARTS = {'quick': 4, 'thorough': 16}
 DEPTH = {'quick': 2, 'thorough': 2}
 DEPTH3_PROGRAMS = (0, 1, 5, 10, 11, 15, 22, 23, 28)
 BOUNDS = {
-    'quick': 'depth 1: 49 programs x full alphabet (7 codes/category, 3 slice codes, 3 forms, 5 option settings, primitive puts); '
+    'quick': 'closure (to the fixpoint, histories of up to 9 steps) of 14 programs under the shrinking alphabet (delete anything / replace anything by the simplest code of its category); depth 1: 54 programs x full alphabet (7 codes/category, 3 slice codes, 3 forms, 5 option settings, primitive puts); '
              'depth 2 (every cacheable query asked before each edit): every distinct state reached by the 1-code x 2-option '
              'first-level alphabet (incl. comment rewriting), expanded with the 1-code alphabet',
-    'thorough': 'depth 1: all 15 codes, 7 slice codes, 17 option settings; depth 2: 3 codes x 2 forms x 2 option sets from '
+    'thorough': 'shrinking closure of every program to its fixpoint; depth 1: all 15 codes, 7 slice codes, 17 option settings; depth 2: 3 codes x 2 forms x 2 option sets from '
                 'every distinct depth-1 state; depth 3 on 9 programs with the 1-code alphabet',
 }
 
 
+SHRINK = dict(nk=1, nks=1, forms=('src',), opts=({},), kinds=('remove', 'del_slice', 'replace', 'delattr'))
+CLOSURE_DEPTH = 14   # more steps than any of the programs has removable parts: the search ends at the fixpoint
+CLOSURE_QUICK = (0, 3, 4, 6, 7, 8, 10, 14, 20, 22, 25, 29, 32, 38)  # programs whose closure has fewer than 70 states
+
+
 def shards(tier):
     out = []
+    # long histories: the closure of each program under the shrinking alphabet (delete anything, replace anything by the simplest
+    # code of its category); every operation makes the program smaller or leaves it as it is, so the reachable state space is finite
+    for i in (CLOSURE_QUICK if tier == 'quick' else range(len(PROGRAMS))):
+        out.append({'prog': i, 'part': [0, 1], 'depth': CLOSURE_DEPTH, 'closure': True})
     for i in range(len(PROGRAMS)):
         if tier == 'quick':  # depth 1 with the full alphabet; depth 2 from the states of a reduced first-level alphabet
             out.append({'prog': i, 'part': [0, 1], 'depth': 1})
@@ -107,6 +116,8 @@ def run_shard(desc, tier, res):
     alphas = ALPHA[tier]
     if desc['depth'] == 3:
         alphas = [ALPHA['quick'][1], ALPHA['quick'][1], ALPHA['thorough'][2]]
+    if desc.get('closure'):
+        alphas = [SHRINK] * desc['depth']
     if desc.get('reduced_first'):
         alphas = [dict(nk=1, nks=1, forms=('src',), opts=({}, {'trivia': False}), lc_texts=('a much longer comment', None)),
                   ALPHA['quick'][1]]
@@ -128,6 +139,10 @@ def run_shard(desc, tier, res):
     # a wrong splice); depth-1 shards run without any query
     X.bfs(fst, src0, desc['depth'], alphas, tuple(desc['part']), res, on_state, cid_prefix=f"C01/p{desc['prog']}/",
           warm=desc['depth'] >= 2)
+    if desc.get('closure'):
+        res.extra['closures_explored'] = 1
+        res.extra['closures_complete(fixpoint reached)'] = int(X.bfs.frontier_left == 0)
+        res.extra['closure_history_length_max'] = desc['depth']
 
 
 def replay(rep, res):
